@@ -136,6 +136,9 @@ func genSignRoundtrip(h *H, modes []string) {
 					if thorough {
 						pats = []int{0, 1, 2, 3, 4}
 					}
+					if h.specOracles && !thorough {
+						pats = pats[:0] // the streamed forms are exercised by the round-trip campaigns
+					}
 					for _, pt := range pats {
 						h.tag("len:chunk-boundary-streamed")
 						h.Run(signCase(mode, v, h.randSigKey(), bigPieces(pt, msg), h.rng.Bytes(16), false))
